@@ -249,7 +249,18 @@ func (p *parser) parseExpression(rbp int) Node {
 	}
 
 	t := p.token
-	p.advance(false)
+
+	// A token in the prefix position is normally an operand, in
+	// which case a following slash is the division operator. But
+	// an opening bracket, a negation or the start of an object
+	// transformation is itself followed by an operand, so a slash
+	// at that point starts a regular expression, e.g. [/a/].
+	switch t.Type {
+	case typeParenOpen, typeBracketOpen, typeBraceOpen, typeMinus, typePipe:
+		p.advance(true)
+	default:
+		p.advance(false)
+	}
 
 	nud := p.lookupNud(t.Type)
 	if nud == nil {
